@@ -446,6 +446,18 @@ class C05(RenderProp):
                                 continue  # a class value of (Unicode) white space only: no tokens, presence not compared
                         out.append([k, v])
                     return out
+                rep = case.get("repeat")
+                if rep:
+                    # the same mixin call `rep` times, then a plain tag that reads the data arrays the calls were given: every call must
+                    # show the same attributes as the first (judged below) and the plain tag must see the arrays as the data has them
+                    ok_shape = (len(starts) == rep + 1 and texts == "body" * rep + "after"
+                                and all(norm(st[2]) == norm(starts[0][2]) for st in starts[:rep])
+                                and [list(a) for a in starts[rep][2]] == case.get("after_attrs"))
+                    if ok_shape:
+                        starts, texts = starts[:1], "body"
+                    else:
+                        detail += " | %d calls + plain tag: start tags %r" % (rep, starts)
+                        starts = []
                 got, want = norm(starts[0][2]) if len(starts) == 1 else None, norm(spec["attrs"])
                 if case.get("spec_doc") and got is not None:
                     # attributes that reach the tag through an object (a mixin call's `attributes`): each exactly once, in an order that
